@@ -98,6 +98,7 @@ class Machine(Node):
 
         self.total_time_idle = 0.0
         self.total_time_setup = 0.0
+        self.time_setup_start = env.now  # the behaviour process (and with it the set-up period) starts at construction time
         
         self.stats={"total_time_spent_in_states": {"SETUP_STATE": 0.0, "IDLE_STATE":0.0, "ATLEAST_ONE_PROCESSING_STATE": 0.0,  "ALL_ACTIVE_BLOCKED_STATE":0.0, "ALL_ACTIVE_PROCESSING_STATE":0.0 ,"ATLEAST_ONE_BLOCKED_STATE":0.0 },
                     "last_state_change_time": None, "num_item_processed": 0, "num_item_discarded": 0,"processing_delay":[], "in_edge_selection":[],"out_edge_selection":[]}
@@ -258,6 +259,13 @@ class Machine(Node):
             raise ValueError(f"Edge already exists in Machine '{self.id}' in_edges.")
         
     def update_final_state_time(self, simulation_end_time):
+        if self.state_rep == (-1, -1):
+            # finalised during the set-up period: the time since the machine started is set-up time
+            elapsed = simulation_end_time - self.time_setup_start
+            self.stats["total_time_spent_in_states"]["SETUP_STATE"] += elapsed
+            self.total_time_setup += elapsed
+            self._update_worker_occupancy("UPDATE")
+            return
         duration = simulation_end_time- self.stats["last_state_change_time"]
         # updating the time of per thread statescld
         for procs in self.worker_thread_list:
